@@ -97,6 +97,9 @@ func (s *Session) chanWake() {
 	if s.state.WakeClosed() || len(s.wake) >= cap(s.wake) {
 		return
 	}
+	// shutdown may close the channel between the check above and the send, this
+	// is then the same as finding it closed.
+	defer func() { recover() }()
 	select {
 	case s.wake <- wake:
 	default:
